@@ -27,7 +27,7 @@ static void vlog(int kind, void* d, const void* s, size_t n, int val) {
 }
 static void* v_gmemcpy(void* d, const void* s, size_t n) {
     if (n) { VCHECKM(V_R_OK(s, n), "memcpy source range readable"); VCHECKM(V_W_OK(d, n), "memcpy destination range writable");
-             VCHECKM((const char*)d + n <= (const char*)s || (const char*)s + n <= (const char*)d || !V_SAME_OBJ(d, s), "memcpy ranges do not overlap");
+             VCHECKM(!V_SAME_OBJ(d, s) || (const char*)d + n <= (const char*)s || (const char*)s + n <= (const char*)d, "memcpy ranges do not overlap");
              vlog(OP_COPY, d, s, n, 0); }
     return d; }
 static void* v_gmemmove(void* d, const void* s, size_t n) {
@@ -100,7 +100,7 @@ void harness(void)
         VCHECKM(d->litSize <= cap || d->litBufferLocation == ZSTD_not_in_dst, "literals placed in dst never exceed its capacity");
         if (d->litBufferLocation == ZSTD_split) {
             VCHECKM(d->litSize > ZSTD_LITBUFFEREXTRASIZE, "split layout only for literals larger than the scratch buffer");
-            VCHECKM(d->litBufferEnd <= dst + bmax && d->litBufferEnd <= dst + cap, "split literals end inside the current block's output area (never over the window or past dst)");
+            VCHECKM(d->litBufferEnd >= (const BYTE*)dst && (size_t)(d->litBufferEnd - (const BYTE*)dst) <= bmax && (size_t)(d->litBufferEnd - (const BYTE*)dst) <= cap, "split literals end inside the current block's output area (never over the window or past dst)");
             VCHECKM(d->litBufferEnd == d->litPtr + (d->litSize - ZSTD_LITBUFFEREXTRASIZE), "first part of split literals ends where the scratch part begins");
             VCHECKM(d->litPtr >= dst, "split literals start inside dst");
         }
